@@ -1,6 +1,7 @@
 package brokerh
 
 import (
+	"bytes"
 	"errors"
 	"fmt"
 	"io"
@@ -30,6 +31,7 @@ type Op struct {
 	Data    []byte `json:"data,omitempty"`
 	Split   []int  `json:"split,omitempty"`   // emit: sizes of the pieces fed to the reader (rest in one piece)
 	WithErr bool   `json:"witherr,omitempty"` // end via reader: the last data arrives together with the error
+	Raw     bool   `json:"raw,omitempty"`     // emit: the data goes out as it is, without the <attempt:seq:...> frame
 }
 
 // History is a generated case for the L2 engine.
@@ -482,6 +484,10 @@ func Exec(h History) *Run {
 			ai.emitSeq++
 			frame := append([]byte(fmt.Sprintf("<%d:%d:", ai.A.N, ai.emitSeq)), op.Data...)
 			frame = append(frame, '>')
+			if op.Raw {
+				frame = bytes.Clone(op.Data)
+				cls("emit-raw")
+			}
 			feedSplit(ai.A.Rd, frame, op.Split)
 			cls("emit")
 			if len(op.Split) > 0 || len(frame) > 2048 {
